@@ -19,6 +19,7 @@ def check(A):
         S.close_once(A, fl, 'C15')
         R.admission_rules(A, fl, 'C15', parts=('sinks',))
         R.queue_unbounded_rule(A, fl, 'C15')
+        R.get_result_rule(A, fl, 'C15')
     R.isolation_rules(A, 'C15')
     R.asgi_rules(A, 'C15')
     R.asgi_body_rule(A, 'C15')
